@@ -113,6 +113,29 @@ example : Vote.fit witnessGraph [-1,0,1,1,-1] { sigma := some [1,0] } 10 = some 
   cases hs
   exact ⟨by decide, by decide +kernel⟩
 
+/-- ★ **Propagation from the raw input** (square or biadjacency matrix, seeds as array / list / dict in `labels`,
+    `labels_row`, `labels_col`).  `get_adjacency_values` hands on non-negative weights (block adjacency for a
+    bipartite input), so for whatever `fit` returns: with at least two classes every seed keeps its label; every
+    label is one of the starting labels; and if a further sweep changes nothing, every updated node with a
+    labelled neighbour holds a label of maximal total vote. -/
+theorem propagation_from_input (c : Csr Rat) (hw : ∀ p, 0 ≤ c.data.getD p 0) (v r cc : Seeds) (rt : Routed)
+    (hrt : adjacencyValues c false v r cc = .ok rt) (a : Vote.PropArgs) (fuel : Nat)
+    (hsig : Vote.SigmaOK a.sigma (Vote.instantiateVars rt.values).2.length)
+    (l : List Int) (t : Nat) (h : Vote.fit rt.adj rt.values a fuel = some (l, t)) :
+    (Vote.singleClass rt.values = false → ∀ i, 0 ≤ rt.values.getD i (-1) → l.getD i (-1) = rt.values.getD i (-1)) ∧
+    (l.length = rt.values.length ∧ ∀ x ∈ l, x ∈ (Vote.instantiateVars rt.values).1) ∧
+    (Vote.voteUpdate (Vote.withWeights rt.adj a.weighted) l (Vote.start rt.values a.sigma).2 = l →
+      Spec.fixedPointOK (Vote.withWeights rt.adj a.weighted) l (Vote.start rt.values a.sigma).2 = true) := by
+  have hw' := routed_nonneg c hw false v r cc rt hrt
+  exact ⟨fun hs => propagation_seeds_kept rt.adj hw' rt.values a fuel hsig hs l t h,
+    propagation_labels_in_seed_set rt.adj hw' rt.values a fuel hsig l t h,
+    fun hst => propagation_fixed_point rt.adj hw' rt.values a fuel hsig l t h hst⟩
+
+/-- non-vacuity: a 2 × 3 biadjacency matrix with `labels_row = {0: 4}` (dict) and `labels_col = [-1, 9, -1]` -/
+example : ((adjacencyValues { nRow := 2, nCol := 3, indptr := #[0,2,3], indices := #[0,1,2], data := #[1,2,3] } false
+      .none (.dict [(0, 4)]) (.arr [-1, 9, -1])).map fun rt => (rt.values, Vote.fit rt.adj rt.values {} 10))
+    = .ok ([4,-1,-1,9,-1], some ([4,-1,4,9,-1], 2)) := by decide +kernel
+
 /-- ★ **vote_update, exactly** (one node).  The update of node `i` leaves every other label alone and writes:
     the old label if `i` has no labelled neighbour; otherwise a non-negative label carried by a neighbour whose
     total vote is maximal and — the tie rule — strictly larger than the vote of every smaller neighbour
